@@ -950,7 +950,9 @@ fn prepare_lib(idx: usize, root: &Path, r: &mut Rng, thorough: bool, st: &mut St
     if let Some(d) = log.dumps.into_iter().last() {
         let ir = Ir::new(d);
         let before = st.failures.len();
-        check_against_model(&name, "elf", &ir, &inventory, mode, &opts.overrides, opts.c_naming, &|_| "C".into(), &|_| 0, st);
+        let mut ms: std::collections::BTreeSet<String> = lib.funcs.iter().filter(|f| f.ms_abi).map(|f| f.name.clone()).collect();
+        for m in ms.clone() { if let Some(rn) = rename(mode, &m) { ms.insert(rn); } }
+        check_against_model(&name, "elf", &ir, &inventory, mode, &opts.overrides, opts.c_naming, &|n| if ms.contains(n) { "win64".into() } else { "C".into() }, &|_| 0, st);
         if st.failures.len() > before { keep_case(&dir, &name); }
     } else {
         st.fail("correspondence", "ir-dump-missing", "no IR dump".into(), &name);
